@@ -301,6 +301,28 @@ def ring(P, E, chk):
             nset += 1
             ds = an.before_node(x["n"]) or []
             slot = pp(sk(v["a"][0])) if v.get("k") == "Un" and v["op"] == "&" else pp(v)
+            if not (v.get("k") == "Un" and v["op"] == "&"):
+                # the slot travels in a pointer variable (a helper's result): what it points to on each path
+                res = []
+                for d in ds:
+                    find = guard.d_equiv(d)
+                    tgt = None
+                    for g in d:
+                        if g.kind == "cmp" and g.op == "==" and find(g.key[0]) == find(pp(v)) and isinstance(g.key[2], str) and g.key[2].startswith("&fwq["):
+                            tgt = g.key[2][1:]
+                    if tgt is None:
+                        res.append(guard.d_holds(d, "==", pp(v), 0))      # NULL: nothing reported on this path
+                        if not res[-1]:
+                            res[-1] = None
+                    else:
+                        res.append(guard.d_holds(d, "==", tgt + ".id", idp))
+                if any(r_ is None for r_ in res):
+                    chk.undecided(r5, get, ir.loc(x), pp(x)[:40], "the reported slot travels in %s, and which entry it points to is not "
+                                  "known on every path" % pp(v))
+                    continue
+                chk.site(r5, get, ir.loc(x), pp(x)[:40], all(res), "reported only when the entry's id == %s" % idp if all(res) else
+                         "a slot is reported without its id having matched")
+                continue
             ok = all(guard.d_holds(d, "==", slot + ".id", idp) for d in ds)
             chk.site(r5, get, ir.loc(x), pp(x)[:40], ok, "reported only when %s.id == %s" % (slot, idp) if ok else
                      "a slot is reported without its id having matched")
